@@ -379,6 +379,25 @@ ROUND4 = {
 }
 for _k, _v in ROUND4.items():
     CHECKS[_k]['text'] += '  ' + _v
+ROUND5 = {
+    'C02': 'Compositions with ReducedPopulationModel wrappers (nothing fixed) around one part and around the whole model; both naming options combined.',
+    'C03': 'Includes the integer-typed-input contracts of C02 / C05 (gradients of an integer vector equal those of the same numbers as floats).',
+    'C04': 'Bounded contract also at integer-typed parameters / outputs / sensitivities; a write into an argument array during any native call is a refutation.',
+    'C05': 'Bounded: the point mass of pooled / heterogeneous dimensions is exact (individual parameters off by 1 ulp ... 1e-4 relative score -inf, alone and inside compositions).',
+    'C08': 'Bounded: real population models (heterogeneous blocks alone and in compositions) resized / renamed through the wrapper before fixing by name.',
+    'C10': 'Model surgery also after choosing another dosed variable of the same compartment; dataset regimens with repeated / unordered row labels.',
+    'C11': 'Predicate outputs.kept: only an output selection changes the selected outputs and their published names (also across a change of the route of administration).',
+    'C12': 'Bounded: Gaussian / KDE / mixture filters at values on offsets 2^20 and 2^24 (value and sensitivities against the documented estimators).',
+    'C13': 'Names and IDs compared position by position also natively; a sibling posterior built from the same filter object.',
+    'C14': 'Row labels default / repeated / unordered; a controller that was used for an earlier dataset of the same individuals.',
+    'C16': 'Generators re-seeded per entry with integers drawn from a finite range are not independent (ghost rule + native search for exact ties among 20 000 draws); bounded: the same seed in fresh interpreter sessions with different string-hash randomisation.',
+    'C17': 'Predicates defaults (names after every reset equal those of a never-renamed twin) and fixed-names (fixing by name removes exactly that name); both naming options combined.',
+    'C18': 'Filter posteriors (population level first) in the chain map; one posterior predictive model asked for several individuals in turn.',
+    'C19': 'The frame obligation is a violation only together with an observable consequence (a write into caller arrays or a later result that differs from a fresh object); an undeclared field that changes without one leaves the obligation undecided.  Bounded: every evaluation method called again with the same argument arrays overwritten in place; twin objects of which one is evaluated after every configuration call (C17 population configurations); flat individual-level vectors of composed models.',
+    'C20': 'Observable labels of any type incl. falsy ones; several add_data calls on one figure (a second frame re-using the ID labels); prediction frames with several observables.',
+}
+for _k, _v in ROUND5.items():
+    CHECKS[_k]['text'] += '  ' + _v
 NOT_APPLICABLE = {}
 
 # property id -> contract module (a module may exist before the property is claimed in CHECKS)
